@@ -60,6 +60,11 @@ func randSets(r *rand.Rand, depth int) [][]Member {
 		}
 		sets = append(sets, set)
 	}
+	// an empty matcher set ("match": [{...}, {}]) matches everything once it is reached
+	if r.Intn(12) == 0 {
+		k := r.Intn(len(sets) + 1)
+		sets = append(sets[:k], append([][]Member{{}}, sets[k:]...)...)
+	}
 	return sets
 }
 
